@@ -414,11 +414,15 @@ def model_and_schedules(wd, name, mk, label_rules, seed, cap, invariant_cfg, gra
         notes.append("model %s: %s %s" % (name, r["error"], r["violated"]))
         log("[model] %s: NOT ok: %s %s" % (name, r["error"], r["violated"]))
     paths = []
+    if dump_graph and (r["distinct"] == 0 or r["distinct"] > 80000):
+        notes.append("model %s: %d distinct states: graph not dumped (guard against huge dot files)" % (name, r["distinct"]))
+        log("[model] %s: graph dump skipped (%d distinct states, rc=%s %s)" % (name, r["distinct"], r["rc"], r["error"]))
+        dump_graph = False
     if dump_graph:
         d = spec_scratch(wd, name + "-g", invariant_cfg["specdirs"])
         mk(d, "graph")
         dot = os.path.join(wd, name + ".dot")
-        g = run_tlc(d, "MC", "MC.cfg", workers=workers, timeout=timeout, dump=dot[:-4])
+        g = run_tlc(d, "MC", "MC.cfg", workers=workers, timeout=min(timeout, 300), dump=dot[:-4])
         shutil.rmtree(d, ignore_errors=True)
         if not os.path.exists(dot):
             raise Inconclusive("no graph dump for %s: %s" % (name, g["out"][-2000:]))
